@@ -23,6 +23,7 @@ type exit struct {
 	pmsg string
 	park *parkedG // exitPark
 	wait ObjID    // exitPark returned by a blocking stub: the object to wait on
+	timer int64   // exitPark returned by time.Sleep in a goroutine: wake-up instant on the goroutine's own timeline (ns)
 }
 
 // runFunction explores fn from its entry under state st and returns the
@@ -592,7 +593,18 @@ func (e *Engine) execBlock(st *State, fr *Frame, idx int, q *pqueue, exits *[]ex
 					continue
 				}
 				if r.kind == exitPark {
-					// a blocking model (socket read): wait at this call, which is re-executed on wake-up
+					if r.park != nil {
+						// the callee is suspended somewhere below: this frame stays suspended behind the call
+						np := *r.park
+						np.stack = append(append([]frameCont{}, r.park.stack...), frameCont{fr: fr.clone(), idx: i, call: x})
+						*exits = append(*exits, exit{st: r.st, kind: exitPark, park: &np})
+						continue
+					}
+					// a blocking model (socket read, sleep): wait at this call, which is re-executed on wake-up
+					if r.timer > 0 && r.st.gdepth > 0 {
+						*exits = append(*exits, exit{st: r.st, kind: exitPark, park: &parkedG{stack: []frameCont{{fr: fr.clone(), idx: i + 1}}, id: r.st.gcur, parkNext: r.st.next, what: "sleep", timer: r.timer}})
+						continue
+					}
 					e.blockHere(r.st, fr, i, r.wait, r.pmsg, x.Pos(), exits)
 					continue
 				}
